@@ -16,7 +16,7 @@ ASSUME = [
     "the ledger may contain leaf tasks and leaf resources only",
 ]
 KINDS = ["ok", "cyc", "dead", "ms", "grp", "galt", "altg"]
-DATED = [None, "start", "both", "end"]
+DATED = [None, "start", "both", "end", "start+pin"]   # start+pin: the LAST leaf below the dated container overrides the inherited start with a later one of its own
 
 
 def forests(n, depth):
@@ -78,8 +78,9 @@ def to_spec(it):
             if t:
                 if state["first_container"]:
                     state["first_container"] = False
-                    if it["dated"] in ("start", "both"):
+                    if it["dated"] in ("start", "both", "start+pin"):
                         node["start"] = "2025-01-08-09:00"
+                        state["pin_in"] = node
                     if it["dated"] in ("end", "both"):
                         node["end"] = "2025-01-17-17:00"
                 node["children"] = mk(t)
@@ -100,10 +101,16 @@ def to_spec(it):
         return out
 
     f = tuple(tuple_to(t) for t in it["f"]) if isinstance(it["f"], list) else it["f"]
+    tasks = mk(f)
+    if it["dated"] == "start+pin" and state.get("pin_in"):
+        from mc.render import walk_tasks
+        below = [t for _f, t, _p in walk_tasks(state["pin_in"]["children"]) if not t.get("children")]
+        if below:
+            below[-1]["start"] = "2025-01-10-11:00"
     return {"alap": it["alap"],
             "resources": [{"id": "r1"}, {"id": "rdead", "leaves": [{"k": "leaves", "type": "annual", "a": "2025-01-01", "b": "2026-01-01"}]},
                           {"id": "team", "children": [{"id": "m1"}, {"id": "m2"}]}],
-            "tasks": mk(f)}
+            "tasks": tasks}
 
 
 def tuple_to(x):
